@@ -107,8 +107,13 @@ package entity
 //@   props C07 C13
 //@   nopanic
 //@   modifies nothing
+// lastValidated/lastValidatedOK: the entity last handed to Validate and the verdict (ghost record: lets a caller be
+// held to "this entity went through validation, successfully, before I made it reachable").
+//@ ghost var lastValidated Interface
+//@ ghost var lastValidatedOK bool
 //@ func Interface.Validate
-//@   modifies nothing
+//@   modifies lastValidated, lastValidatedOK
+//@   defines [recorded] lastValidated == recv && lastValidatedOK == (result == nil)
 
 // The id of an entity value is a deterministic attribute of it.
 //@ func Interface.Id
